@@ -120,6 +120,13 @@ pub fn gen_c13(rng: &mut Rng, i: u64, tier: Tier) -> Script {
         _ => &[0, 1, 2, 3, 4, 5],
     };
     s.ops = gen::stream_ops(rng, n + 8, style, flushes);
+    if vs.plain_len % 8 == 3 {
+        // exact-fit family: the first call is offered the whole stream and granted exactly (or one byte less
+        // than) the room the plaintext needs, with Finish / None / Sync; the drawn schedule follows
+        let (d, fl) = [(0i64, 4i64), (0, 0), (-1, 4), (0, 2)][(vs.plain_len / 8) % 4];
+        s.ops.insert(0, vec![(n + 8) as i64, (vs.plain_len as i64 + d).max(0), fl]);
+        s.set("exact_fit_first_call", 1);
+    }
     s.set("tail_grant", match rng.below(6) {
         0 => 1,
         1 => 3,
